@@ -226,15 +226,42 @@ pub fn harnesses(thorough: bool) -> Vec<Harness> {
             out.push(Harness { name: Box::leak(format!("{}/{}", sn, mn).into_boxed_str()), setup: setup.clone(), threads: threads.clone() });
         }
     }
-    let three: Vec<(&'static str, Vec<Vec<Op>>)> = vec![
+    let mut three: Vec<(&'static str, Vec<Vec<Op>>)> = vec![
         ("P|P|PB", vec![vec![ap(140)], vec![ap(150)], vec![Op::Batch { t: 0, lens: vec![151, 152] }]]),
         ("P|C|C", vec![vec![ap(140)], vec![rn.clone()], vec![rn.clone()]]),
         ("Prot|C|CB", vec![vec![ap(h)], vec![rn.clone()], vec![br(usize::MAX)]]),
         ("P|P|C", vec![vec![ap(140)], vec![ap(150)], vec![rn.clone(), rn.clone()]]),
     ];
+    if thorough {
+        three.extend(vec![
+            ("Prot|C|C", vec![vec![ap(h)], vec![rn.clone()], vec![rn.clone()]]),
+            ("Prot|CB|CB", vec![vec![ap(h)], vec![br(200)], vec![br(usize::MAX)]]),
+            ("PBrot|C|CB", vec![vec![Op::Batch { t: 0, lens: vec![h, 143] }], vec![rn.clone()], vec![br(usize::MAX)]]),
+            ("Prot|PB|C", vec![vec![ap(h)], vec![Op::Batch { t: 0, lens: vec![151, 152] }], vec![rn.clone(), rn.clone()]]),
+        ]);
+    }
     for (sn, setup) in setups.iter().skip(if thorough { 0 } else { 1 }).take(if thorough { 3 } else { 1 }) {
         for (mn, threads) in three.iter() {
             out.push(Harness { name: Box::leak(format!("{}/{}", sn, mn).into_boxed_str()), setup: setup.clone(), threads: threads.clone() });
+        }
+    }
+    // The quick tier carries one three-thread harness at two preemptions: the smallest
+    // configuration in which a rotation, a retrying read_next and a second consumer meet
+    // (it is where the thorough tier found the stale-fold defect).
+    if !thorough {
+        let (sn, setup) = &setups[2];
+        out.push(Harness { name: Box::leak(format!("{}/Prot|C|CB@2", sn).into_boxed_str()), setup: setup.clone(), threads: three[2].1.clone() });
+    }
+    // four threads (bound 1), thorough only
+    if thorough {
+        let four: Vec<(&'static str, Vec<Vec<Op>>)> = vec![
+            ("P|P|C|C", vec![vec![ap(140)], vec![ap(150)], vec![rn.clone()], vec![rn.clone()]]),
+            ("Prot|PB|C|CB", vec![vec![ap(h)], vec![Op::Batch { t: 0, lens: vec![151, 152] }], vec![rn.clone()], vec![br(usize::MAX)]]),
+        ];
+        for (sn, setup) in setups.iter().skip(1) {
+            for (mn, threads) in four.iter() {
+                out.push(Harness { name: Box::leak(format!("{}/{}", sn, mn).into_boxed_str()), setup: setup.clone(), threads: threads.clone() });
+            }
         }
     }
     out
@@ -262,7 +289,17 @@ pub fn run_c05(pool: &Pool, tier: &str, kf: &Known) -> Outcome {
     let mut min_bound_done = usize::MAX;
     'all: for cfg in cfgs.iter() {
         for h in hs.iter() {
-            let bound = if h.threads.len() >= 3 { if thorough { 2 } else { 1 } } else if thorough { 3 } else { 2 };
+            let bound = if h.name.ends_with("@2") {
+                2
+            } else if h.threads.len() >= 4 {
+                1
+            } else if h.threads.len() == 3 {
+                if thorough { 2 } else { 1 }
+            } else if thorough {
+                3
+            } else {
+                2
+            };
             // worklist of choice prefixes; each carries the enabled sets it was derived from
             let mut work: Vec<(Vec<usize>, Vec<Vec<usize>>)> = vec![(vec![], vec![])];
             let mut n_sched = 0u64;
